@@ -591,3 +591,123 @@ func isBoolType(t types.Type) bool {
 	b, ok := t.Underlying().(*types.Basic)
 	return ok && b.Info()&types.IsBoolean != 0
 }
+
+// R9UnlinkTarget — the agent unlinked on a callback is the one the callback names.
+func R9UnlinkTarget(c *Ctx) {
+	const rule = "R9-unlink-target"
+	c.R.Rule(rule, "every teamserver.LinkRemove(parent, child, …) in TaskDispatch takes as child an AgentInstance(id) whose id was parsed out of the callback being handled (Parser.Parse*, or the header parsed from it), never the receiving agent's own id: a disconnect report would otherwise detach (and deactivate) the reporting parent and leave the child routed through it", 1)
+	td := c.P.Func(PkgAgent, "Agent.TaskDispatch")
+	if td == nil {
+		c.R.Anchor(rule, "agent.(*Agent).TaskDispatch")
+		return
+	}
+	n := 0
+	for _, fn := range HelperClosure(td, 1) {
+		EachCall(fn, func(call ssa.CallInstruction) {
+			if !strings.HasSuffix(CalleeName(call), ".LinkRemove") {
+				return
+			}
+			args := CallArgs(call)
+			if len(args) < 2 {
+				return
+			}
+			n++
+			child := args[1]
+			construct := "LinkRemove(…, AgentInstance(<id from the callback>), …)"
+			var inst *ssa.Call
+			DerivesFromNarrowCalls(child, func(v ssa.Value) bool {
+				if cl, ok := v.(*ssa.Call); ok && strings.HasSuffix(CalleeName(cl), ".AgentInstance") {
+					inst = cl
+					return true
+				}
+				return false
+			})
+			if inst == nil {
+				c.R.Bad(rule, FuncShort(fn), construct, c.pos(call.Pos()), "the agent that is unlinked is not looked up by an id (AgentInstance)")
+				return
+			}
+			ids := CallArgs(inst)
+			fromPacket := len(ids) == 1 && DerivesFrom(ids[0], func(v ssa.Value) bool {
+				cl, ok := v.(*ssa.Call)
+				if !ok {
+					return false
+				}
+				nm := CalleeName(cl)
+				return strings.HasPrefix(nm, "(*Havoc/pkg/common/parser.Parser).Parse") || strings.HasSuffix(nm, ".ParseHeader")
+			})
+			fromSelf := len(ids) == 1 && DerivesFrom(ids[0], IsFieldLoad(PkgAgent+".Agent", "NameID"))
+			if fromPacket && !fromSelf {
+				c.R.Ok(rule, FuncShort(fn), construct, c.pos(call.Pos()), "the id comes out of the callback", true)
+			} else {
+				c.R.Bad(rule, FuncShort(fn), construct, c.pos(call.Pos()), "the id looked up for the unlink does not come out of the callback (it is the receiving agent's own id, or a value not parsed from the packet): the wrong agent is detached")
+			}
+		})
+	}
+	if n == 0 {
+		c.R.Anchor(rule, "a teamserver.LinkRemove call in TaskDispatch")
+	}
+}
+
+// R9ParentAfterUnlink — the new parent is recorded after the old link is gone.
+func R9ParentAfterUnlink(c *Ctx) {
+	const rule = "R9-parent-after-unlink"
+	c.R.Rule(rule, "in TaskDispatch no teamserver.LinkRemove(…, X, …) can run after X.Pivots.Parent was set to a new parent: LinkRemove clears the child's parent pointer when it equals the parent being removed (R9-pivot-paired-update), so on a reconnect through the same parent the pointer just written would be wiped while the child is listed again", 1)
+	td := c.P.Func(PkgAgent, "Agent.TaskDispatch")
+	if td == nil {
+		c.R.Anchor(rule, "agent.(*Agent).TaskDispatch")
+		return
+	}
+	n := 0
+	for _, fn := range HelperClosure(td, 1) {
+		var removes []ssa.CallInstruction
+		EachCall(fn, func(call ssa.CallInstruction) {
+			if strings.HasSuffix(CalleeName(call), ".LinkRemove") && len(CallArgs(call)) >= 2 {
+				removes = append(removes, call)
+			}
+		})
+		for _, b := range fn.Blocks {
+			for _, in := range b.Instrs {
+				st, ok := in.(*ssa.Store)
+				if !ok || isNilConst(st.Val) {
+					continue
+				}
+				t, f, base, ok := FieldOf(st.Addr)
+				if !ok || t != PkgAgent+".Pivots" || f != "Parent" {
+					continue
+				}
+				// base is &X.Pivots
+				_, _, owner, ok := FieldOf(base)
+				if !ok {
+					continue
+				}
+				n++
+				construct := "X.Pivots.Parent = <new parent> after the unlink of X"
+				bad := ""
+				for _, rm := range removes {
+					child := CallArgs(rm)[1]
+					if AccessPath(child) != AccessPath(owner) && child != owner {
+						continue
+					}
+					rin := rm.(ssa.Instruction)
+					after := false
+					if rin.Block() == st.Block() {
+						after = InstrBlockIndex(rin) > InstrBlockIndex(st)
+					} else {
+						after = BlockReaches(st.Block(), rin.Block(), nil)
+					}
+					if after {
+						bad = c.pos(rm.Pos())
+					}
+				}
+				if bad == "" {
+					c.R.Ok(rule, FuncShort(fn), construct, c.pos(st.Pos()), "no unlink of that agent can follow the assignment", true)
+				} else {
+					c.R.Bad(rule, FuncShort(fn), construct, bad, "a LinkRemove of the same agent can run after its new parent was recorded: when old and new parent are the same agent the call resets the pointer to nil, leaving a child that is listed by a parent it does not point to")
+				}
+			}
+		}
+	}
+	if n == 0 {
+		c.R.Anchor(rule, "a store to <agent>.Pivots.Parent in TaskDispatch")
+	}
+}
